@@ -363,14 +363,107 @@ def disconnect_rule(rep, prog):
     rep.instance(rid, "tracker-mutators", sample={"calls": sorted(set(muts))})
 
 
+def reconnect_outcomes(prog, initial):
+    """every way `radar::init_tcp_reader` can return when entered with settings.quit = `initial` (None | variant name): the function is
+    interpreted path by path with unknown terminal / keyboard / network outcomes; its waiting loop is explored until a state recurs.
+    -> (list of (result kind, final quit variant or None/'?'), interpreter)"""
+    from ..ai import entry
+    from ..ai.interp import State, top_of
+    from ..ai.summaries import some, NONE
+    from ..ai.values import AdtVal, RefVal, Top, Choice
+    helper = prog.fns.get("radar::init_tcp_reader")
+    adt = prog.adts.get("radar::Settings")
+    qr = prog.adts.get("radar::QuitReason")
+    if helper is None or adt is None or qr is None or len(helper["locals"]) < 4:
+        return None, None
+    names = [f["name"] for f in adt["variants"][0]["fields"]]
+    if "quit" not in names:
+        return None, None
+    fields = []
+    for f in adt["variants"][0]["fields"]:
+        if f["name"] == "quit":
+            if initial is None:
+                fields.append(NONE)
+            else:
+                vi = [v["name"] for v in qr["variants"]].index(initial)
+                fields.append(some(AdtVal("radar::QuitReason", vi, [], vname=initial)))
+        else:
+            fields.append(top_of(f["ty"]))
+    ip = entry.new_interp(prog, max_seconds=120, merge_returns=False, loop_subsume=True)
+    st = State()
+    sref = None
+    args = []
+    for i in range(1, 1 + helper["arg_count"]) if "arg_count" in helper else range(1, 4):
+        ty = helper["locals"][i]["ty"]
+        if ty.get("k") == "ref" and isinstance(ty.get("to"), dict) and ty["to"].get("path") == "radar::Settings":
+            sref = RefVal(st.new_heap(AdtVal("radar::Settings", 0, fields, vname="Settings")), True)
+            args.append(sref)
+        elif ty.get("k") == "ref":
+            args.append(RefVal(st.new_heap(Top(None)), bool(ty.get("mut"))))
+        else:
+            args.append(top_of(ty))
+    if sref is None:
+        return None, None
+    outs = ip.run_function(helper, args, st)
+    res = []
+    qi = names.index("quit")
+    for o in outs:
+        if o.status == "covered":
+            continue
+        rv = o.retval
+        kind = "?"
+        if o.status not in ("run", "returned"):
+            kind = o.status
+        elif isinstance(rv, AdtVal) and rv.path == "core::result::Result":
+            if rv.variant == 1:
+                kind = "Err"
+            else:
+                x = rv.fields[0]
+                kind = "Ok(None)" if isinstance(x, AdtVal) and x.variant == 0 else ("Ok(Some)" if isinstance(x, AdtVal) and x.variant == 1 else "Ok(?)")
+        q = o.heap[sref.loc[1]].fields[qi]
+        if isinstance(q, AdtVal) and q.variant == 0:
+            qn = None
+        elif isinstance(q, AdtVal) and q.variant == 1 and isinstance(q.fields[0], AdtVal):
+            qn = q.fields[0].vname
+        else:
+            qn = "?"
+        res.append((kind, qn))
+    return res, ip
+
+
+def reconnect_rule(rep, prog):
+    rid = rep.rule("R5", "radar --retry-tcp keeps waiting for the server: entered after a disconnect (quit reason TcpDisconnect still set), the reconnect helper gives up with Ok(None) only on a path on which the operator asked to quit (it stored QuitReason::UserRequested)")
+    res, ip = reconnect_outcomes(prog, "TcpDisconnect")
+    if res is None:
+        rep.violation("R5", "anchor:init_tcp_reader", "anchor missing: radar::init_tcp_reader(terminal, &mut Settings { quit, .. }, socket) / radar::QuitReason")
+        return
+    kinds = {}
+    for k, q in res:
+        kinds.setdefault(k, set()).add(q)
+    rep.instance(rid, "outcomes", sample={"paths": len(res), "outcomes": {k: sorted(str(x) for x in v) for k, v in sorted(kinds.items())}, "steps": ip.steps})
+    for k, q in sorted(set(res), key=str):
+        rep.instance(rid, "outcome|%s|%s" % (k, q))
+    if "Ok(Some)" not in kinds:
+        rep.violation("R5", "reconnect:never-succeeds", "no path of radar::init_tcp_reader returns a new connection")
+    if "Ok(?)" in kinds or "?" in kinds:
+        rep.violation("R5", "reconnect:undetermined", "the result of radar::init_tcp_reader could not be determined on some path: %s" % sorted(kinds))
+    bad = sorted(str(q) for q in kinds.get("Ok(None)", ()) if q != "UserRequested")
+    if bad:
+        rep.violation("R5", "reconnect:gives-up-without-quit-request", "radar::init_tcp_reader, entered after a disconnect, returns Ok(None) on a path whose quit reason is still %s: "
+                      "no operator quit was recorded during the call, yet main stops retrying and the client exits, losing its tracked aircraft" % bad)
+    rep.floor("reconnect helper outcomes", 3, len(set(res)))
+
+
 def run(rep, tier, replay=None):
     prog = facts.load("std")
     buffer_rules(rep, prog)
     malformed_rule(rep, prog)
     disconnect_rule(rep, prog)
+    reconnect_rule(rep, prog)
     rep.assume("NOT decided: 'exactly once and in order for every segmentation and delay' (schedules relative to the 50 ms read timeout); only the structural skeleton is checked")
     rep.assume("BufReader::read_line appends to the String and on Err leaves the bytes read so far in it (std contract)")
     return rep.finish(
         "Structural skeleton only (the statement quantifies over TCP segmentations and delays). CFG rules on the MIR of both mains: R1 every path from a "
         "complete line to the next read_line clears the buffer; R2 no path from a failed/timed-out read_line clears it; R3 no panic site (overflow assert, "
-        "bounds check, str/slice range index, unwrap/expect) between read_line and the decode call except allow-listed ones; R4 Ok(0) flags the disconnect and the tracker is created once outside the loop.")
+        "bounds check, str/slice range index, unwrap/expect) between read_line and the decode call except allow-listed ones; R4 Ok(0) flags the disconnect and the tracker is created once outside the loop. "
+        "R5 the reconnect helper is interpreted path by path (unknown keyboard / network outcomes, its waiting loop explored until a state recurs) from the state main calls it in after a disconnect.")
